@@ -4,7 +4,10 @@ import (
 	"encoding/json"
 	"fmt"
 	"sync"
+	"sync/atomic"
 	"time"
+
+	"k8s.io/apimachinery/pkg/api/meta"
 
 	"k8s.io/apimachinery/pkg/apis/meta/v1/unstructured"
 	"k8s.io/apimachinery/pkg/types"
@@ -24,12 +27,34 @@ import (
 //   objs[i]: null (no record in the actuation table) or [strategy, actuation, uid, gen]
 //   init[i]: null (nothing cached) or obs ; obs = [status, hasRes, gen, uid]
 //   ops: ["u", i, obs] status event for object i (i == len(objs): an id outside the task) | ["t"] deadline fires | ["c"] Cancel
+//   crd (optional): crd[i] = object i is a CustomResourceDefinition.apiextensions.k8s.io id.  When the field is present the
+//        task gets a RESTMapper that counts Reset() calls and the output has "resets" = the count once the phase has ended
+//        (task result delivered), resp. at the moment the phase is found not to have ended.
 type waitIn struct {
 	Cond int     `json:"cond"`
 	Objs [][]any `json:"objs"`
 	Init [][]any `json:"init"`
 	Ops  [][]any `json:"ops"`
+	Crd  []bool  `json:"crd,omitempty"`
 }
+
+// id of object i of this case
+func (in waitIn) id(i int) object.ObjMetadata {
+	if i < len(in.Crd) && in.Crd[i] {
+		return fromJid(jid{"", fmt.Sprintf("o%d", i), "apiextensions.k8s.io", "CustomResourceDefinition"})
+	}
+	return waitID(i)
+}
+
+// countingMapper: a meta.ResettableRESTMapper around the mapper the tests use, counting Reset()
+type countingMapper struct {
+	meta.RESTMapper
+	n *int32
+}
+
+func (c countingMapper) Reset() { atomic.AddInt32(c.n, 1) }
+
+var _ meta.ResettableRESTMapper = countingMapper{}
 
 var kstatuses = []status.Status{status.InProgressStatus, status.FailedStatus, status.CurrentStatus, status.TerminatingStatus, status.NotFoundStatus, status.UnknownStatus}
 
@@ -63,7 +88,7 @@ func runWait(in waitIn) (out map[string]any) {
 	ids := make(object.ObjMetadataSet, n)
 	idx := map[object.ObjMetadata]int{}
 	for i := range ids {
-		ids[i] = waitID(i)
+		ids[i] = in.id(i)
 		idx[ids[i]] = i
 	}
 	evCh := make(chan event.Event, 4096)
@@ -92,7 +117,12 @@ func runWait(in waitIn) (out map[string]any) {
 	if in.Cond == 1 {
 		cond = taskrunner.AllNotFound
 	}
-	w := taskrunner.NewWaitTask("wait-0", append(object.ObjMetadataSet{}, ids...), cond, 0, testutil.NewFakeRESTMapper())
+	var resets int32
+	var mapper meta.RESTMapper = testutil.NewFakeRESTMapper()
+	if in.Crd != nil {
+		mapper = countingMapper{RESTMapper: mapper, n: &resets}
+	}
+	w := taskrunner.NewWaitTask("wait-0", append(object.ObjMetadataSet{}, ids...), cond, 0, mapper)
 	drain := func() [][]int {
 		evs := [][]int{}
 		for {
@@ -131,7 +161,7 @@ func runWait(in waitIn) (out map[string]any) {
 		switch anyStr(op[0]) {
 		case "u":
 			i := anyInt(op[1])
-			id := waitID(i)
+			id := in.id(i)
 			// what TaskStatusRunner.Run does for a status event while this task is current
 			rc.Put(id, obsToCache(id, op[2].([]any)))
 			if w.Identifiers().Contains(id) {
@@ -148,7 +178,7 @@ func runWait(in waitIn) (out map[string]any) {
 			// the deadline fires; while the Timeout events are being handed to a slow consumer (unbuffered channel), after
 			// the k-th of them, the runner receives a status update for object i.  Reported as two operations: the
 			// Timeout events, then the events of the update.
-			tev, uev := waitTimeoutWithUpdate(w, tc, rc, idx, anyInt(op[1]), anyInt(op[2]), op[3].([]any))
+			tev, uev := waitTimeoutWithUpdate(w, tc, rc, idx, anyInt(op[1]), in.id(anyInt(op[2])), op[3].([]any))
 			w.Cancel(tc)
 			explicitEnd = true
 			opEvs = append(opEvs, tev, uev)
@@ -178,6 +208,9 @@ func runWait(in waitIn) (out map[string]any) {
 	endMu.Lock()
 	e := ended
 	endMu.Unlock()
+	// the mapper is reset by the goroutine that ends the phase, before it delivers the task result: once `ended` is seen the
+	// count is final; a phase that has not ended must not have reset anything (read before the clean-up cancel below)
+	nResets := int(atomic.LoadInt32(&resets))
 	if !e {
 		w.Cancel(tc) // let the goroutines finish
 		<-doneCh
@@ -190,11 +223,15 @@ func runWait(in waitIn) (out map[string]any) {
 			recon[i] = -1
 		}
 	}
-	return map[string]any{"start": startEvs, "ops": opEvs, "recon": recon, "ended": e, "late": drain()}
+	out = map[string]any{"start": startEvs, "ops": opEvs, "recon": recon, "ended": e, "late": drain()}
+	if in.Crd != nil {
+		out["resets"] = nResets
+	}
+	return out
 }
 
 func waitTimeoutWithUpdate(w *taskrunner.WaitTask, tc *taskrunner.TaskContext, rc *cache.ResourceCacheMap, idx map[object.ObjMetadata]int,
-	k, i int, obs []any) (tev, uev [][]int) {
+	k int, id object.ObjMetadata, obs []any) (tev, uev [][]int) {
 	tev, uev = [][]int{}, [][]int{}
 	raw := make(chan event.Event)
 	tc2 := taskrunner.VerifWithEventChannel(tc, raw)
@@ -204,7 +241,6 @@ func waitTimeoutWithUpdate(w *taskrunner.WaitTask, tc *taskrunner.TaskContext, r
 	launched := false
 	launch := func() {
 		launched = true
-		id := waitID(i)
 		go func() {
 			defer close(udone)
 			rc.Put(id, obsToCache(id, obs))
@@ -307,6 +343,13 @@ func genWaitCase(rng *proto.Rng, maxObjs, maxOps int) waitIn {
 			in.Init = append(in.Init, nil)
 		}
 	}
+	if rng.Chance(1, 2) {
+		// some of the objects are CRDs: the RESTMapper is reset when the phase ends unless all of them were skipped
+		in.Crd = make([]bool, n)
+		for i := range in.Crd {
+			in.Crd[i] = rng.Chance(1, 3)
+		}
+	}
 	k := rng.Intn(maxOps + 1)
 	for j := 0; j < k; j++ {
 		r := rng.Intn(40)
@@ -403,6 +446,31 @@ func init() {
 				for _, o0 := range grid {
 					for _, o1 := range grid {
 						cases = append(cases, waitIn{Cond: cond, Objs: [][]any{rec}, Init: [][]any{o0}, Ops: [][]any{{"u", 0, o1}}})
+					}
+				}
+			}
+			// RESTMapper reset: 1-2 objects, every actuation record x CRD or not x way of (not) ending the phase
+			for cond := 0; cond < 2; cond++ {
+				gen := 0
+				if cond == 0 {
+					gen = 1
+				}
+				recs := [][]any{nil, {cond, 2, "", 0}, {cond, 3, "", 0}, {1 - cond, 2, "", 0}, {1 - cond, 3, "", 0}, {cond, 1, "u", gen}, {1 - cond, 1, "u", gen}, {cond, 0, "", 0}}
+				met := []any{2, true, gen, "u"} // Current at the applied generation
+				if cond == 1 {
+					met = []any{4, false, 0, ""} // NotFound
+				}
+				endings := [][][]any{{}, {{"t"}}, {{"c"}}, {{"u", 0, met}}, {{"u", 0, met}, {"c"}}, {{"u", 0, []any{0, true, gen, "u"}}}}
+				for _, ops := range endings {
+					for _, r0 := range recs {
+						for _, c0 := range []bool{false, true} {
+							cases = append(cases, waitIn{Cond: cond, Objs: [][]any{r0}, Init: [][]any{nil}, Ops: ops, Crd: []bool{c0}})
+							for _, r1 := range recs {
+								for _, c1 := range []bool{false, true} {
+									cases = append(cases, waitIn{Cond: cond, Objs: [][]any{r0, r1}, Init: [][]any{nil, nil}, Ops: ops, Crd: []bool{c0, c1}})
+								}
+							}
+						}
 					}
 				}
 			}
